@@ -223,3 +223,161 @@ def c08_usage(model, meta):
     except Exception as e:  # noqa: BLE001
         res, exc = None, e
     return {"env": {"used": used, "total": total, "round_": r}, "result": res, "exc": exc}
+
+
+# ---------------------------------------------------------------------------
+# witness search: candidate inputs for obligations the solvers leave undecided
+# (a failing input found this way is a real violation; finding none proves nothing)
+# ---------------------------------------------------------------------------
+
+SEARCH = {}
+
+
+def search(rid):
+    def deco(f):
+        SEARCH[rid] = f
+        return f
+    return deco
+
+
+def lat(b):
+    return b.decode("latin-1") if isinstance(b, bytes) else b
+
+
+def unlat(s):
+    if isinstance(s, bytes):
+        return s
+    if isinstance(s, str):
+        return s.encode("latin-1", "replace")
+    return b""
+
+
+TRICKY_COMMS = [b"", b"a", b"cat", b"a b", b"a)b", b"a(b", b"(sd-pam)", b"((((", b"))))", b") (", b" (", b"a (b",
+                b"foo (bar)", b"a) S 1 (b", b"a) R 1 2 3", b"x\ny", b"\xff\xfe", b"Uid:\t7\t8\t9", b"Threads:\t77",
+                b"Gid:\t1\t2\t3", b")", b"(", b" ", b"a) ", b"123456789012345", b"ctxt_switches:\t5", b") R 0 (",
+                b"kworker/0:1-ev", b"a)b)c", b"a(b(c", b"x (y) z"]
+
+
+def stat_fields(rng, n=52, state=b"S"):
+    F = [state] + [str(rng.randrange(0, 10 ** rng.choice([1, 3, 6, 12, 19]))).encode() for _ in range(n - 1)]
+    return F
+
+
+def build_stat(pid, comm, F):
+    return str(pid).encode() + b" (" + comm + b") " + b" ".join(F) + b"\n"
+
+
+def run_stat_method(model, meta, method=None):
+    """fake /proc/<pid>/stat from the model, then the real accessor"""
+    import psutil
+    from psutil import _pslinux
+    pid = int(model.get("st_pid_s") or model.get("pid") or 4242)
+    comm = unlat(model.get("st_comm", "x"))[:15]
+    F = [unlat(x) for x in (model.get("st_F") or [])]
+    import random
+    rng = random.Random(pid)
+    base = stat_fields(rng)
+    for k, x in enumerate(F[:len(base)]):
+        if x and (k == 0 or x.isdigit()):
+            base[k] = x
+    if len(F) and len(F) < 40 and len(F) >= 37:
+        base = base[:len(F)]
+    F = base
+    if len(F[0]) != 1:
+        F[0] = b"S"
+    data = build_stat(pid, comm, F)
+    meth = method or meta["contract"].split(".")[-1]
+    bt_cached = model.get("BOOT_TIME")
+    with fake_procfs({f"{pid}/stat": data}):
+        _pslinux.BOOT_TIME = float(num(bt_cached)) if bt_cached is not None else None
+        p = _pslinux.Process(pid)
+        try:
+            res, exc = getattr(p, meth)(), None
+        except Exception as e:  # noqa: BLE001
+            res, exc = None, e
+        bt = _pslinux.BOOT_TIME if bt_cached is not None else 1700000000.0
+        _pslinux.BOOT_TIME = None
+    env = {"comm": comm, "F": F, "CLK": _pslinux.CLOCK_TICKS, "bt": bt, "self": p, "rec": {"F": F, "comm": comm}}
+    return {"env": env, "result": res, "exc": exc, "stat": data.decode("latin-1")}
+
+
+@runner("c06:stat")
+def c06_stat(model, meta):
+    return run_stat_method(model, meta)
+
+
+@search("c06:stat")
+def c06_stat_search(meta, seed, budget):
+    import random
+    rng = random.Random(seed)
+    n = 0
+    for comm in TRICKY_COMMS:
+        for nf in (52, 37):
+            yield {"st_pid_s": str(1000 + n), "st_comm": lat(comm), "st_F": [lat(x) for x in stat_fields(rng, nf, rng.choice([b"S", b"R", b"Z", b"D", b"I"]))]}
+            n += 1
+    while n < budget:
+        ln = rng.randrange(0, 16)
+        comm = bytes(rng.choice(b"ab() \n\t:)(") for _ in range(ln))
+        yield {"st_pid_s": str(1000 + n), "st_comm": lat(comm), "st_F": [lat(x) for x in stat_fields(rng, rng.choice([52, 40, 37]))]}
+        n += 1
+
+
+def build_status(m):
+    g = lambda k, d: unlat(m.get(k, d)) or unlat(d)  # noqa: E731
+    dig = lambda k, d: (g(k, d) if g(k, d).isdigit() else d.encode())  # noqa: E731
+    v = g("ss_v", "x").replace(b"\n", b"")[:15]     # a comm holds at most 15 bytes
+    txt = b"Name:\t" + v + b"\n"
+    m1 = g("ss_m1", "Umask:\t0022\nState:\tS (sleeping)\nTgid:\t5\nNgid:\t0\nPid:\t5\nPPid:\t1\nTracerPid:\t0\n")
+    if b"Uid:" in m1 or b"Gid:" in m1 or b"Threads:" in m1 or b"ctxt" in m1 or (m1 and not m1.endswith(b"\n")):
+        m1 = b"Umask:\t0022\nState:\tS (sleeping)\nTgid:\t5\nPid:\t5\nPPid:\t1\n"
+    txt += m1
+    txt += b"Uid:\t" + b"\t".join(dig(k, d) for k, d in (("ss_ur", "1000"), ("ss_ue", "1001"), ("ss_us", "1002"), ("ss_ufs", "1003"))) + b"\n"
+    txt += b"Gid:\t" + b"\t".join(dig(k, d) for k, d in (("ss_gr", "2000"), ("ss_ge", "2001"), ("ss_gs", "2002"), ("ss_gfs", "2003"))) + b"\n"
+    txt += b"FDSize:\t64\nGroups:\t4 24\nVmPeak:\t  100 kB\n"
+    txt += b"Threads:\t" + dig("ss_nthr", "3") + b"\n"
+    txt += b"SigQ:\t0/100\nCpus_allowed:\tff\nCpus_allowed_list:\t0-7\n"
+    txt += b"voluntary_ctxt_switches:\t" + dig("ss_vol", "11") + b"\nnonvoluntary_ctxt_switches:\t" + dig("ss_nonvol", "12") + b"\n"
+    rec = {"v": v, "ur": dig("ss_ur", "1000"), "ue": dig("ss_ue", "1001"), "us": dig("ss_us", "1002"),
+           "gr": dig("ss_gr", "2000"), "ge": dig("ss_ge", "2001"), "gs": dig("ss_gs", "2002"),
+           "nthr": dig("ss_nthr", "3"), "vol": dig("ss_vol", "11"), "nonvol": dig("ss_nonvol", "12")}
+    return txt, rec
+
+
+@runner("c06:status")
+def c06_status(model, meta):
+    from psutil import _pslinux
+    pid = 4243
+    txt, rec = build_status(model)
+    meth = meta["contract"].split(".")[-1]
+    with fake_procfs({f"{pid}/status": txt, f"{pid}/stat": build_stat(pid, b"x", stat_fields(__import__("random").Random(1)))}):
+        p = _pslinux.Process(pid)
+        try:
+            res, exc = getattr(p, meth)(), None
+        except Exception as e:  # noqa: BLE001
+            res, exc = None, e
+    return {"env": {"rec": rec, "self": p}, "result": res, "exc": exc, "status": txt.decode("latin-1")}
+
+
+@search("c06:status")
+def c06_status_search(meta, seed, budget):
+    import random
+    rng = random.Random(seed)
+    n = 0
+    for comm in TRICKY_COMMS:
+        if b"\n" in comm:
+            continue
+        yield status_model(rng, comm)
+        n += 1
+    alphabet = b"UidGThreadsctx_w:\t0123456789 ()\\"
+    while n < budget:
+        comm = bytes(rng.choice(alphabet) for _ in range(rng.randrange(0, 16)))
+        yield status_model(rng, comm)
+        n += 1
+
+
+def status_model(rng, comm):
+    return {"ss_v": lat(comm), "ss_ur": str(rng.randrange(10, 60000)), "ss_ue": str(rng.randrange(10, 60000)),
+            "ss_us": str(rng.randrange(10, 60000)), "ss_gr": str(rng.randrange(10, 60000)),
+            "ss_ge": str(rng.randrange(10, 60000)), "ss_gs": str(rng.randrange(10, 60000)),
+            "ss_nthr": str(rng.randrange(1, 500)), "ss_vol": str(rng.randrange(0, 2 ** 64)),
+            "ss_nonvol": str(rng.randrange(0, 2 ** 64))}
